@@ -111,6 +111,7 @@ def plan(tier, seed):
         units.append(("pe", tier, i))
     units.append(("bytes", tier))
     units += [("ladder", tier, name) for name in families.STREAM_FAMILIES["quick"] if not name.startswith("bytes") and name != "pairs"] + [("ladder-num", tier)]
+    units += [("nest", tier, i) for i in range(len(NEST_PAIRS))]
     units.append(("full", tier))
     units.append(("views",))
     units += core.interp_axis([("views",), ("xor", 0)] + [("sl", "ctx", tier, u[2]) for u in families.get("ctx").units(tier)])
@@ -137,11 +138,39 @@ def md_full():
     return _MD_FULL
 
 
+class DeepTreeRecursionError(Exception):
+    """A view ran out of stack on a tree that really is nested hundreds of levels deep (cause predicate of a known finding: any other
+    RecursionError keeps its own signature)."""
+
+
+def nesting(tree) -> int:
+    deepest, stack = 0, [(tree, 0)]
+    while stack:
+        n, d = stack.pop()
+        deepest = max(deepest, d)
+        for c in n.children:
+            stack.append((c, d + 1))
+    return deepest
+
+
+def _view(fn, tree):
+    def run():
+        try:
+            return fn()
+        except RecursionError:
+            d = nesting(tree)
+            if d >= 300:
+                raise DeepTreeRecursionError(f"the view recurses once per nesting level and the tree is {d} levels deep") from None
+            raise
+
+    return run
+
+
 def views(rec, tree, w, size):
-    rec.guard("C01.view.flatten", w, size, tree.flatten)
-    rec.guard("C01.view.iterate", w, size, lambda: list(tree))
-    rec.guard("C01.view.summary", w, size, string_summary, tree)
-    rec.guard("C01.view.json", w, size, lambda: json.loads(tree_to_json(tree)))
+    rec.guard("C01.view.flatten", w, size, _view(tree.flatten, tree))
+    rec.guard("C01.view.iterate", w, size, _view(lambda: list(tree), tree))
+    rec.guard("C01.view.summary", w, size, _view(lambda: string_summary(tree), tree))
+    rec.guard("C01.view.json", w, size, _view(lambda: json.loads(tree_to_json(tree)), tree))
 
 
 def scan_case(rec, scanner, data, depth, w, size, limit=5):
@@ -156,7 +185,7 @@ def scan_case(rec, scanner, data, depth, w, size, limit=5):
         return None
     if tree.children:
         rec.mark("nontrivial", data)
-        rec.mark("outcomes", trees.shape(tree))
+        rec.mark("outcomes", trees.shape_flat(tree))
     views(rec, tree, w, size)
     return tree
 
@@ -243,6 +272,8 @@ def run_unit(unit, rec):
         run_ladder(rec, unit[1], unit[2])
     elif kind == "ladder-num":
         run_ladder_num(rec, unit[1])
+    elif kind == "nest":
+        run_nest(rec, unit[1], unit[2])
     elif kind == "full":
         run_full(rec, unit[1])
     elif kind == "views":
@@ -367,6 +398,22 @@ def run_ladder(rec, tier, name):
     rec.sample({"family": name, "level": "ladder", "token": tok, "lengths": core.ladder(2, hi)[-5:], "last_len": len(last)})
 
 
+# opener^n + closer^n: constructs that nest as undecoded contexts (contexts do not consume the depth limit, so the TREE gets n levels deep)
+NEST_PAIRS = [(b"createobject(", b")"), (b"(cmd /c ", b")"), (b"CreateObject( ", b" )"), (b"x(", b")"), (b"'powershell -c \"", b"\"'"), (b"reverse(", b")"), (b"/a", b".b")]
+
+
+def run_nest(rec, tier, i):
+    op, cl = NEST_PAIRS[i]
+    hi = 1025 if tier == "quick" else 5000
+    last = 0
+    for n in core.ladder(2, hi):
+        for data in (op * n + cl * n, b"x " + op * n + b"a" + cl * n + b" y", op * n + cl * (n // 2)):
+            rec.mark("states", ("nest", i, n, len(data)), True)
+            scan_case(rec, md(), data, 10, {"kind": "nest", "pair": i, "n": n, "data_len": len(data), "form": data[:24]}, 300000 + n, limit=60)
+            last = n
+    rec.sample({"family": "nesting-ladder", "opener": op, "closer": cl, "levels": core.ladder(2, hi)[-5:], "last": last})
+
+
 def run_ladder_num(rec, tier):
     """Unbounded numeric spellings: leading zeros of chr() arguments, of array elements, of xor keys, of XML references, of ports."""
     for n in core.ladder(0, 10000):
@@ -444,3 +491,5 @@ def replay(w, rec):
         run_ladder(rec, "quick" if w["n"] <= 1025 else "thorough", w["family"])
     elif kind == "ladder-num":
         run_ladder_num(rec, "quick")
+    elif kind == "nest":
+        run_nest(rec, "quick" if w["n"] <= 1025 else "thorough", w["pair"])
